@@ -81,9 +81,10 @@ func toJSON(v interface{}) string {
 
 // Case: one replayable input.
 type Case struct {
-	Schema string
-	Types  [][2]string // name, text (added in this order)
-	Enums  [][2]string // rule name, text
+	Schema  string
+	Types   [][2]string      // name, text (added in this order)
+	Enums   [][2]string      // rule name, text
+	EnumAST map[string]XNode // expected GetAST() of each named rule (by rule name)
 }
 
 func (c Case) String() string {
@@ -99,26 +100,37 @@ func (c Case) String() string {
 }
 
 // realAST: enum rules are added first (AddRule must precede loading), then the types, then GetAST.
-func realAST(c Case) (out XNode, err error) {
+// The AST of every named enum rule object is read as well (after the schema used it) into rules.
+func realAST(c Case) (out XNode, rules map[string]XNode, err error) {
 	defer func() {
 		if r := recover(); r != nil {
 			err = fmt.Errorf("PANIC %v", r)
 		}
 	}()
 	s := jschema.New("root", c.Schema)
+	objs := map[string]*enum.Enum{}
 	for _, e := range c.Enums {
-		if err := s.AddRule(e[0], enum.New(e[0], e[1])); err != nil {
-			return XNode{}, fmt.Errorf("AddRule %s: %w", e[0], err)
+		objs[e[0]] = enum.New(e[0], e[1])
+		if err := s.AddRule(e[0], objs[e[0]]); err != nil {
+			return XNode{}, nil, fmt.Errorf("AddRule %s: %w", e[0], err)
 		}
 	}
 	for _, t := range c.Types {
 		if err := s.AddType(t[0], jschema.New(t[0], t[1])); err != nil {
-			return XNode{}, fmt.Errorf("AddType %s: %w", t[0], err)
+			return XNode{}, nil, fmt.Errorf("AddType %s: %w", t[0], err)
 		}
 	}
 	n, err := s.GetAST()
 	if err != nil {
-		return XNode{}, err
+		return XNode{}, nil, err
 	}
-	return convNode(n), nil
+	rules = map[string]XNode{}
+	for name, e := range objs {
+		a, err := e.GetAST()
+		if err != nil {
+			return XNode{}, nil, fmt.Errorf("GetAST of rule %s: %w", name, err)
+		}
+		rules[name] = convNode(a)
+	}
+	return convNode(n), rules, nil
 }
